@@ -14,6 +14,11 @@ def withTree (S : Schema) (h : String) (k : List DNode → String) : String :=
   | none => "err BadTree"
   | some f => if dumpTok (canon S (heightL f + 1) f) == dumpTok f then k f else "err NonCanonical"
 
+/-- `fx=120,126` — the findings whose repair is in the tree under test (`-` = none) -/
+def parseFixes (a : String) : Fixes :=
+  let l := ((a.drop 3).toString.splitOn ",")
+  { f120 := l.contains "120", f126 := l.contains "126", f128 := l.contains "128" }
+
 def handle (op : String) (args : List String) : String :=
   match op, args with
   | "schema", [dsl, _yang] =>
@@ -23,18 +28,18 @@ def handle (op : String) (args : List String) : String :=
       match forestOfHex S t with
       | some f => "ok " ++ dumpTok (canon S (heightL f + 1) f)
       | none => "err BadTree"
-  | "diff", [dsl, a, b, o] =>
+  | "diff", [dsl, a, b, o, fx] =>
     withSchema dsl fun S => withTree S a fun A => withTree S b fun B =>
-      let r := diffFull S (o != "0") A B
+      let r := diffFull S (o != "0") A B (parseFixes fx)
       "ok " ++ dumpTok r.1 ++ " " ++ toString r.2
-  | "diffapply", [dsl, a, b, o] =>
+  | "diffapply", [dsl, a, b, o, fx] =>
     withSchema dsl fun S => withTree S a fun A => withTree S b fun B =>
-      match apply S A (diffFromPtr S (o != "0") A B) with
+      match apply S A (diffFromPtr S (o != "0") A B (parseFixes fx)) (parseFixes fx) with
       | .ok r => if hasDupInst S (heightL r + 1) r then "ok DupInstances" else "ok " ++ dumpTok (stripNpL S r)
       | .error e => "err " ++ e.name
-  | "apply3", [dsl, a, b, c, o] =>
+  | "apply3", [dsl, a, b, c, o, fx] =>
     withSchema dsl fun S => withTree S a fun A => withTree S b fun B => withTree S c fun C =>
-      match apply S C (diffFromPtr S (o != "0") A B) with
+      match apply S C (diffFromPtr S (o != "0") A B (parseFixes fx)) (parseFixes fx) with
       | .ok r => if hasDupInst S (heightL r + 1) r then "ok DupInstances" else "ok " ++ dumpTok (stripNpL S r)
       | .error e => "err " ++ e.name
   | _, _ => "err BadOp"
